@@ -6,9 +6,13 @@ package gobeansdb
 import (
 	"encoding/binary"
 	"fmt"
+	"net/http/httptest"
+	"net/url"
 	"os"
 	"path/filepath"
+	"regexp"
 	"sort"
+	"strconv"
 	"strings"
 	"sync"
 	"sync/atomic"
@@ -206,7 +210,17 @@ func vfC17Eligibility(env *vfc.Env, id string, r *ref.Rand, a *vfC17Args) {
 		fslog.mu.Lock()
 		fslog.events, fslog.active = nil, true
 		fslog.mu.Unlock()
-		b, e, err := sut.hs.GC(0, argS, argE, days, merge, pretend)
+		var b, e int
+		var err error
+		viaWeb := r.Intn(3) == 0
+		if viaWeb {
+			// the request as an operator issues it: the admin HTTP handler (defaults -1, pretend unless run=true)
+			b, e, err = vfWebGC(sut.hs, r, argS, argE, days, merge, pretend)
+			tuple += " via=/gc/ handler"
+			res.Event("requests_via_web_handler", 1)
+		} else {
+			b, e, err = sut.hs.GC(0, argS, argE, days, merge, pretend)
+		}
 		ran := false
 		if err == nil && !pretend {
 			if !hooks.WaitGCExit(exits, vfWatchdog) {
@@ -304,6 +318,54 @@ func vfC17Eligibility(env *vfc.Env, id string, r *ref.Rand, a *vfC17Args) {
 	if len(res.Samples) < 2 {
 		res.Sample(map[string]interface{}{"case": id, "files": nfiles, "ages_days": ages, "head_state": headState})
 	}
+}
+
+// vfWebGC issues the request through the admin web handler (gobeansdb/web.go handleGC)
+// and reads the resolved range / the refusal from its reply.
+func vfWebGC(hs *store.HStore, r *ref.Rand, argS, argE, days int, merge, pretend bool) (b, e int, err error) {
+	old := storage
+	storage = &Storage{hstore: hs}
+	defer func() { storage = old }()
+	q := url.Values{}
+	add := func(name string, v int) {
+		if v != -1 || r.Bool() { // -1 is the handler's default: sometimes left out
+			q.Set(name, strconv.Itoa(v))
+		}
+	}
+	add("start", argS)
+	add("end", argE)
+	add("nogcdays", days)
+	if merge {
+		q.Set("merge", "true")
+	} else if r.Bool() {
+		q.Set("merge", "false")
+	}
+	if !pretend {
+		q.Set("run", "true")
+	} else if r.Bool() {
+		q.Set("run", []string{"false", "1", "yes"}[r.Intn(3)]) // anything but "true" is a dry run
+	}
+	req := httptest.NewRequest("GET", "/gc/0?"+q.Encode(), nil)
+	w := httptest.NewRecorder()
+	handleGC(w, req)
+	body := w.Body.String()
+	if i := strings.Index(body, "err :"); i >= 0 {
+		end := strings.Index(body[i:], "</p>")
+		if end < 0 {
+			end = len(body) - i
+		}
+		return -1, -1, fmt.Errorf("%s", strings.TrimSpace(body[i+5:i+end]))
+	}
+	m := regexp.MustCompile(`start (-?\d+), end (-?\d+), merge (true|false), pretend (true|false)`).FindStringSubmatch(body)
+	if m == nil {
+		return -1, -1, fmt.Errorf("unparsable reply of the gc handler: %q", body)
+	}
+	b, _ = strconv.Atoi(m[1])
+	e, _ = strconv.Atoi(m[2])
+	if (m[4] == "true") != pretend || (m[3] == "true") != merge {
+		return b, e, fmt.Errorf("handler ran with merge=%s pretend=%s, requested merge=%v pretend=%v", m[3], m[4], merge, pretend)
+	}
+	return b, e, nil
 }
 
 func vfFileList(files map[int]vfFileInfo) string {
